@@ -172,12 +172,19 @@ def check(ck):
                     for cc in [x for x in ast.walk(hf.node) if isinstance(x, ast.Call)]:
                         if is_logging_call(cc):
                             continue
-                        if isinstance(cc.func, ast.Name) and cc.func.id in ("print", "repr", "str", "len", "bool", "isinstance", "int"):
-                            continue
+                        if isinstance(cc.func, ast.Name) and cc.func.id in ("print", "repr", "len", "bool", "isinstance") and not cc.keywords:
+                            continue        # (total on what the accessors return; str(b, enc) / int(text) can raise and are not listed)
                         if isinstance(cc.func, ast.Attribute) and cc.func.attr in ("getheader", "getheaders", "read", "close", "isclosed") and \
                                 isinstance(cc.func.value, ast.Name) and cc.func.value.id in hf.params:
                             continue
                         return False
+                    # an accessor that can fail (read) must sit in a catch-all of the helper: its failure must not replace the TransportError
+                    for cc in [x for x in ast.walk(hf.node) if isinstance(x, ast.Call) and isinstance(x.func, ast.Attribute) and x.func.attr == "read"]:
+                        guarded = any(isinstance(t_, ast.Try) and any(x is cc for b_ in t_.body for x in ast.walk(b_)) and
+                                      any(h_.type is None or dump(h_.type) in ("Exception", "BaseException") for h_ in t_.handlers)
+                                      for t_ in ast.walk(hf.node))
+                        if not guarded:
+                            return False
                     return True
                 closes_self = dump(c.func) == "self.close" and not c.args      # (dropping the connection of a failed exchange: C19.1's own remedy)
                 ck.require(own or is_logging_call(c) or closes_self or _harmless_helper(c), "C19.2", "%s: `%s` on the non-200 path" % (q.fn(fs), dump(c)[:40]), "accessor of the own response",
